@@ -961,3 +961,65 @@ def full_flags(ck, F, rule="FULL-RANGE"):
                   "first/last row or column and the range is printed as a whole column/row" % (flag, sorted(fields & (want | {"x"})), sorted(want - fields)),
                   f, ln, sample={"flag": flag, "reads": sorted(fields)})
     ck.ob(rule, "stringify|full-flag sites", n >= 2, "expected full_row / full_column computations in stringify, found %d" % n, b.file, b.line)
+
+
+VALIDATE_WIDE_EXCEPT = {
+    "update_named_style": "its only error after the first write is `rename_named_style_entry(name, new_name)?`, whose two failure causes (name "
+                          "missing, new_name taken) were both tested before any write in the same function",
+}
+
+
+def validate_first_wide(ck, F, rule="VALIDATE-FIRST"):
+    """The same discipline for every editing entry point of the model: in each Result-returning method of Model /
+    Worksheet / Styles that a UserModel operation calls directly and that writes persistent state, no explicit error is
+    constructed after the first persistent write (evaluation helpers, whose writes are caches, are not entry points)."""
+    P = Program(F)
+    pt = persistent_types(F)
+    UM = "ironcalc_base::user_model::common::UserModel"
+    targets = set()
+    for path in F.body_paths():
+        h = F.heads[path]
+        if h.get("impl_adt") != UM and "user_model" not in path:
+            continue
+        for c in P.edges.get(path, ()):
+            hc = F.heads.get(c)
+            if hc and hc.get("bkind") == "fn" and hc.get("impl_adt") in ("ironcalc_base::model::Model", "ironcalc_base::types::Worksheet", "ironcalc_base::types::Styles", "ironcalc_base::types::Workbook") \
+                    and "Result<" in (hc.get("output") or "") and not hc["name"].startswith(("get_", "evaluate", "is_")):
+                targets.add(c)
+    n = 0
+    for c in sorted(targets):
+        b = F.body(c)
+        be = block_effects(b.rec, F.adts)
+        writes = {}
+        for bi, es in be.items():
+            for e, line in es:
+                if is_persistent_effect(e, pt):
+                    writes.setdefault(bi, "%s.%s" % (e[0].rsplit("::", 1)[-1], e[1]))
+        for bi, t in b.calls():
+            cc = t["fn"].get("r")
+            if cc in F.heads:
+                pe = [e for e in P.effects(cc) if is_persistent_effect(e, pt)]
+                if pe:
+                    writes.setdefault(bi, "call " + F.qname_of(cc).rsplit("::", 1)[-1])
+        if not writes:
+            continue
+        n += 1
+        explicit = set()
+        for bi, si, s in b.stmts():
+            rv = s["rv"]
+            if rv["k"] == "agg" and rv.get("adt") == "std::result::Result" and rv.get("variant") == "Err":
+                explicit.add(bi)
+        after = set()
+        for w in writes:
+            after |= b.strictly_after(w)
+        bad = sorted(explicit & after)
+        name = F.heads[c]["name"]
+        if bad and name in VALIDATE_WIDE_EXCEPT:
+            ck.ob(rule, "%s|no-explicit-Err-after-first-write" % name, True, "EXCEPTION: " + VALIDATE_WIDE_EXCEPT[name], nontrivial=False)
+            continue
+        f, l = b.loc(bad[0]) if bad else (b.file, b.line)
+        first = sorted(set(writes.values()))[:3]
+        ck.ob(rule, "%s|no-explicit-Err-after-first-write" % name, not bad,
+              "%s can return an error it constructs itself after it already wrote persistent state (%s): the failed call leaves a change behind"
+              % (name, first), f, l, sample={"fn": name, "first_writes": first})
+    ck.note("editing_entry_points", n)
